@@ -505,7 +505,8 @@ func profile(nameMatcher bool, excluded *int64) hist.Profile {
 			"rule-add": 3, "rule-mod": 3, "rule-del": 8, "rule-dup": 1, "rule-swap": 1,
 			"cosmetic": 2, "revert": 1, "replace": 4, "name-del": 5,
 		},
-		Cosmetics: true,
+		Cosmetics:  true,
+		ChainOneIn: 4,
 	}
 }
 
